@@ -122,16 +122,20 @@ func VerifC07_Messages() {
 	verifReach("C07/messages/started")
 	// the message grammar is explored under the run-until-block schedule; VerifC07_Schedules varies the schedule
 	verifSchedBound(0)
-	// any failing step (behaviour, unknown step, rejected input) can hit the known shutdown defect
-	verifKnown("C07/send-on-closed-workdone", true)
 	k := 2
 	expected := map[string]int{}
 	runs := [3]string{"r1", "r2", "r3"}
 	clientDone := false
 	for i := 0; i < k && !clientDone; i++ {
-		kind := nondetChoice(verifNm("kind", i), 9)
+		kind := nondetChoice(verifNm("kind", i), 12)
 		run := runs[i]
 		switch kind {
+		case 9: // a valid signal for the first run (which may or may not exist)
+			_ = c.enc.Encode(RuntimeMessage{MessageTypeSignal, runs[0], SignalMessage{SignalID: "sig", Data: map[string]any{}}})
+		case 10: // unknown signal id for the first run
+			_ = c.enc.Encode(RuntimeMessage{MessageTypeSignal, runs[0], SignalMessage{SignalID: "nosuchsignal", Data: map[string]any{}}})
+		case 11: // wrongly typed signal data for the first run
+			_ = c.enc.Encode(RuntimeMessage{MessageTypeSignal, runs[0], SignalMessage{SignalID: "sig", Data: []any{int64(1)}}})
 		case 0: // valid work-start
 			_ = c.enc.Encode(RuntimeMessage{MessageTypeWorkStart, run, WorkStartMessage{StepID: "inc", Config: map[string]any{"n": nondetInt64(verifNm("n", i))}}})
 			expected[run]++
@@ -172,11 +176,8 @@ func VerifC07_Messages() {
 	c.readDone.Wait()
 	verifAssert("C07/messages/hello", c.helloOK)
 	for _, run := range runs {
-		if !clientDone {
-			verifAssert("C07/messages/exactly-one-terminal-message-per-accepted-run", c.terminals[run] == expected[run])
-		} else {
-			verifAssert("C07/messages/at-most-one-terminal-message-per-accepted-run", c.terminals[run] <= expected[run])
-		}
+		// also when client-done follows the work-start at once: the output stays open until the server returns
+		verifAssert("C07/messages/exactly-one-terminal-message-per-accepted-run", c.terminals[run] == expected[run])
 	}
 	verifObserve("errors", len(c.srvErrs))
 	verifReach("C07/messages/end")
@@ -187,7 +188,6 @@ func VerifC07_Schedules() {
 	mode := nondetChoice("behaviour", behaveCount)
 	c := verifStartRawClient(verifBehavingPlugin(mode, nil))
 	verifReach("C07/schedules/started")
-	verifKnown("C07/send-on-closed-workdone", mode != behaveOK)
 	_ = c.enc.Encode(RuntimeMessage{MessageTypeWorkStart, "r1", WorkStartMessage{StepID: "inc", Config: map[string]any{"n": nondetInt64("n1")}}})
 	_ = c.enc.Encode(RuntimeMessage{MessageTypeSignal, "r1", SignalMessage{SignalID: "sig", Data: map[string]any{}}})
 	_ = c.enc.Encode(RuntimeMessage{MessageTypeWorkStart, "r2", WorkStartMessage{StepID: "inc", Config: map[string]any{"n": nondetInt64("n2")}}})
@@ -208,10 +208,10 @@ func VerifC07_EndOfInputWhileRunning() {
 	release := make(chan struct{})
 	c := verifStartRawClient(verifBehavingPlugin(mode, release))
 	verifReach("C07/eoi/started")
-	verifKnown("C07/send-on-closed-workdone", mode != behaveOK)
 	_ = c.enc.Encode(RuntimeMessage{MessageTypeWorkStart, "r1", WorkStartMessage{StepID: "inc", Config: map[string]any{"n": nondetInt64("n")}}})
 	verifSettle()
-	if nondetBool("clientDone") {
+	orderly := nondetBool("clientDone")
+	if orderly {
 		_ = c.enc.Encode(RuntimeMessage{MessageTypeClientDone, "", clientDoneMessage{}})
 	} else {
 		_ = c.toSrvW.Close()
@@ -220,7 +220,41 @@ func VerifC07_EndOfInputWhileRunning() {
 	close(release) // the step finishes only now
 	c.srvDone.Wait()
 	c.readDone.Wait()
-	verifAssert("C07/eoi/at-most-one-terminal", c.terminals["r1"] <= 1)
+	if orderly {
+		verifAssert("C07/eoi/exactly-one-terminal", c.terminals["r1"] == 1)
+	} else {
+		// an abrupt end of input is reported as a server-fatal error, which ends every run at the client; a
+		// per-run terminal message may still follow (the step succeeds) but is no longer owed
+		verifAssert("C07/eoi/at-most-one-terminal-after-abrupt-end", c.terminals["r1"] <= 1)
+		verifAssert("C07/eoi/abrupt-end-reported", c.others >= 1)
+	}
 	verifObserve("terminals", c.terminals["r1"])
 	verifReach("C07/eoi/end")
 }
+
+// the end of input follows the work-start immediately (no waiting for the answer): the accepted, succeeding runs are
+// still answered exactly once before RunATPServer returns, under every bounded schedule
+func VerifC07_EndRightAfterStart() {
+	c := verifStartRawClient(verifBehavingPlugin(behaveOK, nil))
+	verifReach("C07/endafterstart/started")
+	two := nondetBool("twoRuns")
+	_ = c.enc.Encode(RuntimeMessage{MessageTypeWorkStart, "r1", WorkStartMessage{StepID: "inc", Config: map[string]any{"n": nondetInt64("n1")}}})
+	if two {
+		_ = c.enc.Encode(RuntimeMessage{MessageTypeWorkStart, "r2", WorkStartMessage{StepID: "inc", Config: map[string]any{"n": nondetInt64("n2")}}})
+	}
+	if nondetBool("clientDone") {
+		_ = c.enc.Encode(RuntimeMessage{MessageTypeClientDone, "", clientDoneMessage{}})
+	} else {
+		_ = c.toSrvW.Close()
+	}
+	c.srvDone.Wait()
+	c.readDone.Wait()
+	verifAssert("C07/endafterstart/exactly-one-terminal-r1", c.terminals["r1"] == 1)
+	if two {
+		verifAssert("C07/endafterstart/exactly-one-terminal-r2", c.terminals["r2"] == 1)
+	}
+	verifObserve("errors", len(c.srvErrs))
+	verifReach("C07/endafterstart/end")
+}
+
+func init() { verifRegister("VerifC07_EndRightAfterStart", VerifC07_EndRightAfterStart) }
